@@ -360,7 +360,10 @@ def liberal_segment(rng):
 def hist_case(rng, n, tag):
     segs = [liberal_segment(rng) for _ in range(n)]
     whole = b"".join(segs)
-    line = "I " + " / ".join([hx(whole)] + [hx(s_) for s_ in segs])
+    # the whole stream arrives in one delivery, segment by segment, or segment by segment from a channel that already
+    # holds the deliveries and completes every read synchronously (run marked `!`)
+    first = rng.choice([hx(whole), ",".join(hx(s_) for s_ in segs), "!" + ",".join(hx(s_) for s_ in segs)])
+    line = "I " + " / ".join([first] + [hx(s_) for s_ in segs])
     return line, ["HIST " + tag]
 
 
